@@ -120,6 +120,19 @@ def compile_batch(exprs, dialect):
     return out
 
 
+def compile_programs(progs, dialect):
+    """whole programs `... | select {v0 = e}`: [(expression text | None | 'ERR', statement | error)]"""
+    out = []
+    reqs = [{"src": p, "target": "sql." + dialect, "format": False, "sig": False} for p in progs]
+    for a in harness("compile", reqs):
+        if "ok" in a:
+            parts = split_select(a["ok"], 1)
+            out.append((parts[0], a["ok"]) if parts else (None, a["ok"]))
+        else:
+            out.append(("ERR", a))
+    return out
+
+
 def run_queries(setup, sqls):
     """execute each statement on an in-memory SQLite (python's sqlite3: it has the math functions POW / FLOOR the
     templates use, which the harness' bundled SQLite lacks); returns [{'cols','rows'} | {'exec_err'}]"""
@@ -174,6 +187,9 @@ def run():
     t0 = time.time(); S.stream_sql_and_e2e(ck, model_ok, tm); tm["sql+e2e"] = round(time.time() - t0, 1)
     t0 = time.time(); S.stream_directed(ck); tm["directed"] = round(time.time() - t0, 1)
     ck.coverage["seconds_by_phase"] = tm
+    # most informative first (only the first 20 are printed): wrong VALUES, then text differences
+    rank = {"e2e": 0, "engine-model": 2, "sqltext": 1, "parse": 1, "mirror": 3}
+    ck.violations.sort(key=lambda v: rank.get(v[1].get("stream") if isinstance(v[1], dict) else None, 4))
     ck.proof_broken_violation(found_input=any(not ni for _, _, ni in ck.violations))
     ck.assumptions += [
         "value domain {NULL,-7,-2,-1,0,1,2,7,0.5,-2.5}^3 (all 1000 rows for the depth-2 triples, a seeded 250-row sample for random deeper trees); rows with an intermediate value that is not exactly representable in binary64 are not compared",
